@@ -66,8 +66,10 @@ class WildGen:
             scoped_substring=False,    # D2: scoped name containing the parameter's spelling (T::Type)
             scoped_templated=False,    # scoped use of a parameter bound to a templated concrete type
             this_use=0.0, this_in_args=False,   # D3: vector<This>
+            this_in_base=False,        # D38: class X : B<This>
             func_templated_inst=False, # D37: function template instantiated with a templated argument
             near_miss=True,            # identifiers that contain a parameter's spelling
+            special_names=0.0,         # python keywords / ipython names / print / serialize as member names
         )
         f.update(features)
         self.f = f
@@ -81,6 +83,19 @@ class WildGen:
         self.n += 1
         pool = UPPER if upper else LOWER
         return "%s%d" % (self.r.choice(pool), self.n)
+
+    SPECIAL = ['lambda', 'def', 'in', 'is', 'from', 'global', 'pass', 'del', 'raise', 'import', 'as', 'with',
+               'yield', 'None', 'True', 'False', 'elif', 'except', 'finally', 'nonlocal', 'and', 'or', 'not',
+               'svg', 'png', 'jpeg', 'html', 'javascript', 'markdown', 'latex', 'print', 'serialize',
+               'serializable', 'insert', 'pickle', 'printx', 'Print', 'lambda_']
+
+    def member_name(self, upper=False, role='method'):
+        if self.r.random() < self.f['special_names']:
+            pool = self.SPECIAL
+            if role == 'static':
+                pool = [x for x in pool if x not in ('serialize', 'serializable')]
+            return self.r.choice(pool)
+        return self.ident(upper)
 
     def typename(self):
         ns = tuple(self.ident() for _ in range(self.r.choice([0, 0, 1, 1, 2, 3])))
@@ -239,7 +254,7 @@ class WildGen:
         base = None
         saved = (list(self.scope_params), self.in_class)
         self.scope_params = [p.name for p in (tmpl or ())]
-        self.in_class = True
+        self.in_class = self.f['this_in_base']   # D38: `This` inside a templated base is not replaced
         if self.f['bases'] and r.random() < 0.35:
             if r.random() < 0.4 and self.f['templated_types']:
                 ns, bn = self.typename()
@@ -247,6 +262,7 @@ class WildGen:
             else:
                 ns, bn = self.typename()
                 base = S.T(bn, ns)
+        self.in_class = True
         members = []
         kinds = ['ctor', 'method', 'method', 'method', 'static', 'prop']
         if self.f['operators']:
@@ -268,9 +284,9 @@ class WildGen:
             if k == 'ctor':
                 members.append(S.Ctor(name, self.args(), mt))
             elif k == 'method':
-                members.append(S.Method(self.ident(), self.ret(), self.args(), r.random() < 0.5, mt))
+                members.append(S.Method(self.member_name(), self.ret(), self.args(), r.random() < 0.5, mt))
             elif k == 'static':
-                members.append(S.Static(self.ident(r.random() < 0.5), self.ret(), self.args(), mt))
+                members.append(S.Static(self.member_name(r.random() < 0.5, 'static'), self.ret(), self.args(), mt))
             elif k == 'prop':
                 members.append(S.Prop(self.type(), self.ident(), self.default() if r.random() < 0.2 else None))
             elif k == 'op':
@@ -307,7 +323,7 @@ class WildGen:
                 self.f['templates'] and r.random() < self.f.get('class_template_p', 0.3)) else None
             saved = list(self.scope_params)
             self.scope_params = [p.name for p in (tmpl or ())]
-            fn = S.Func(self.ident(r.random() < 0.3), self.ret(), self.args(), tmpl)
+            fn = S.Func(self.member_name(r.random() < 0.3, 'static'), self.ret(), self.args(), tmpl)
             self.scope_params = saved
             return fn
         if k == 'enum':
@@ -379,7 +395,7 @@ def add_typedefs(mod, g, flagged_scopes=False):
                                                           enclosing_templates + local))))
             else:
                 out.append(it)
-        cands = local + enclosing_templates
+        cands = local + ([] if g.f.get('typedef_same_ns') else enclosing_templates)
         n_td = r.choice([0, 0, 1, 2]) if cands or g.f['fwd'] else 0
         for _ in range(n_td):
             if cands and r.random() < 0.8:
